@@ -38,7 +38,9 @@ ConsAtom(s, cx) ==
        [] k = 8 -> IF cx.sugar THEN Str(<<c1, c2>>, Pick(s, 4, 3) = 0) ELSE SeqE(<<Chr(c1), Chr(c2)>>)
        [] k = 9 -> IF cx.sugar
                    THEN LET ci == Pick(s, 8, 4) = 0
-                            lim(c) == IF ci /\ c >= 256 THEN 97 ELSE c      \* case-insensitive classes stay below 256 (see PegSyntax!ItemsS)
+                            \* case-insensitive classes stay within ASCII: the builder folds range ends with strings.ToLower/ToUpper,
+                            \* which also maps non-ASCII letters, while PegSyntax!Lower/Upper describe ASCII only (and see PegSyntax!ItemsS)
+                            lim(c) == IF ci /\ c >= 128 THEN 97 ELSE c
                             d1 == lim(c1) d2 == lim(c2) d3 == lim(a[1 + Pick(s, 6, Len(a))])
                         IN Cls(<<IF Pick(s, 5, 2) = 0 THEN Single(d1) ELSE Item(IF d1 <= d2 THEN d1 ELSE d2, IF d1 <= d2 THEN d2 ELSE d1),
                                  Single(d3)>>, Pick(s, 7, 2) = 0, ci)
@@ -155,7 +157,26 @@ SwitchAltOld(s, cx) ==
        [] k = 3 -> SeqE(<<f, Opt(ConsAtom(H(s, 65), cx))>>)
        [] k = 4 -> SeqE(<<f, Act(0)>>)
        [] k = 5 -> SeqE(<<f, ConsAtom(H(s, 65), cx), ConsAtom(H(s, 66), cx)>>)
+\* recursion through a choice that is first reached after input was consumed: A <- B .. ; B <- 'x' D .. ;
+\* D <- A 'y' .. / 'p' .. / [q-r] .. with x outside the other first sets (so the choice of D is legitimately
+\* rewritten, and its first alternative starts with a rule whose analysis is still in progress)
+RecSkeleton(s, cx) ==
+  LET a == cx.alpha
+      x == a[1 + Pick(s, 1, 2)]                          \* one of the first two letters
+      p == a[3 + Pick(s, 2, 2)]                          \* one of the next two
+      q == a[5] r == a[Len(a)]
+      y == a[1 + Pick(s, 3, Len(a))]
+      tail(k) == IF Pick(s, 10 + k, 3) = 0 THEN <<Opt(ConsAtom(H(s, 20 + k), cx))>> ELSE IF Pick(s, 10 + k, 3) = 1 THEN <<Act(0)>> ELSE <<>>
+      dAlts == <<SeqE(<<Ref(IF Pick(s, 4, 2) = 0 THEN "A" ELSE "B"), Chr(y)>> \o tail(1)),
+                 SeqE(<<Chr(p)>> \o tail(2)), SeqE(<<Rng(q, r)>> \o tail(3))>> \o
+               (IF Pick(s, 5, 2) = 0 THEN <<SeqE(<<Cap(Chr(a[7 - 2 * Pick(s, 6, 2) - 3])), Chr(y)>>)>> ELSE <<>>)
+      rules == << [name |-> "A", body |-> SeqE(<<Ref("B")>> \o tail(4) \o (IF Pick(s, 7, 2) = 0 THEN <<Not(Dot)>> ELSE <<>>))],
+                  [name |-> "B", body |-> SeqE(<<Chr(x), Ref("D")>> \o tail(5))],
+                  [name |-> "D", body |-> AltE(dAlts)] >>
+  IN NumberActions([rules |-> rules])
+
 GenSwitch(s, cx) ==
+  IF Pick(s, 98, 4) = 0 THEN RecSkeleton(H(s, 97), cx) ELSE
   LET n == 3 + Pick(s, 70, 3)
       alt == AltE([i \in 1..n |-> SwitchAlt(H(s, 71 + i), cx)])
       k == Pick(s, 80, 6)
